@@ -1,6 +1,8 @@
 """C20 — configuration entry points agree and stay self-consistent."""
 import re
 from ..runner import Prop
+from .inv_base import InvProp
+from .. import geninv as GI
 from ..prng import Rng
 from .. import core
 from .. import genv as G
@@ -78,6 +80,32 @@ def py_case(rust_case):
     return c
 
 
+_INV = InvProp()
+_INV.parts = ("nodes",)
+
+
+def behaviour_cases(tier, seed):
+    """Inventories with missing classes whose instance is reconfigured while live (pattern lists, flags), cloned, and
+    built from config files with the keys in any order: reported settings and behaviour must agree."""
+    from .c16 import PATS
+    pats = [q for q in PATS if q is not None]
+    for i in range(60 if tier == "quick" else 1500):
+        r = Rng(seed, "C20:behaviour", i)
+        cfg = {"ignore_class_notfound": True, "patterns": r.choice(pats)}
+        c = GI.gen_inventory(r, n_classes=r.range(1, 4), shape=r.choice(["tree", "dag"]), n_nodes=r.range(1, 3), missing=2, cfg=cfg,
+                             compose=r.chance(1, 2), node_dirs=r.chance(1, 2))
+        FL = "compose-node-name-literal-dots"
+        steps = []
+        for _ in range(r.range(1, 4)):
+            steps.append(r.choice([{"patterns": r.choice(pats)}, {"patterns": ["("]}, {"set_flag": FL}, {"unset_flag": FL}, {"clear_flags": 1},
+                                   {"render_inventory": 1}, {"patterns": r.choice(pats)}]))
+        c["lifecycle"] = steps
+        if i % 3 == 0:
+            opts = [["ignore_class_notfound", True], ["ignore_class_notfound_regexp", cfg["patterns"]], ["compose_node_name", c["config"].get("compose_node_name", False)]]
+            c["config"]["file_options"] = r.shuffle(opts)
+        yield c
+
+
 class C20(Prop):
     id = "C20"
     serial = True
@@ -92,6 +120,7 @@ class C20(Prop):
         return [dict(c) for c in CLAUSES] + ctor_pair("mynodes", "mycls", True, "file") + ctor_pair("cls-nodes", "cls", False, "file") + ctor_pair("inv", "inv.classes", True, "opts") + ctor_pair("a/b", "a/bc", False, "file") + ctor_pair("a/b", "a/b/c", False, "file") + ctor_pair("123", "true", False, "file") + super().corpus()
 
     def cases(self, tier, seed):
+        yield from behaviour_cases(tier, seed)
         N = 400 if tier == "quick" else 10000
         for i in range(N):
             r = Rng(seed, "C20", i)
@@ -140,6 +169,8 @@ class C20(Prop):
                 yield t
 
     def judge(self, req, impl, reply):
+        if req.get("op") == "inventory":
+            return _INV.judge(req, impl, reply)
         if req.get("op") == "py_config":
             if not isinstance(impl, dict) or "dict" not in impl:
                 return dict(agree=False, spec_ok=None, why="harness rejected: %s" % str(impl)[:200], skip=True)
@@ -227,11 +258,15 @@ class C20(Prop):
         return out
 
     def nontrivial(self, req, impl, reply):
+        if req.get("op") == "inventory":
+            return isinstance(impl, dict) and isinstance(impl.get("lifecycle"), dict)
         if req.get("op") == "py_config":
             return len(req.get("py_options", {})) >= 2
         return len(req.get("options", [])) >= 2 or len(req.get("steps", [])) >= 2
 
     def tags(self, req, impl, reply):
+        if req.get("op") == "inventory":
+            return ["route=live-instance"] + _INV.tags(req, impl, reply)[:3]
         if req.get("op") == "py_config":
             return ["route=python", "pydict:" + ("ok" if "ok" in (impl or {}).get("dict", {}) else "exc")]
         t = ["route=" + req.get("route", "?")]
